@@ -1,6 +1,17 @@
-import Yuiv.Proofs.C15
+import Yuiv.Proofs.C15Quad
 /-
-C15 — Euclidean-domain operations: property theorems.
+C15 — Euclidean-domain operations: property theorems (about the code model `Yuiv/Model/C15.lean`).
+
+* integers: `a = (a/b)·b + a%b`, `|a%b| < |b|`; `div_round` exact for operands of any size, ties away from zero;
+* Z[i], Z[ω]: division identity and `N(a % b) < N(b)` (indeed `2N(r) ≤ N(b)` resp. `4N(r) ≤ 3N(b)`);
+* the generic `EucRing::{gcd, gcdx, lcm}` + `Ring::normalized` of `euc_ring.rs`/`ring.rs`, for every type whose
+  operations satisfy `LawfulEuc` (a commutative ring with Euclidean `/`, `%` and a normalising unit that is
+  compatible with associates): termination, `gcd ∣ a`, `gcd ∣ b`, greatest, Bezout with the returned `s, t`,
+  normalised on all paths (early returns included), independent of the argument order, `lcm·gcd ~ a·b`;
+* `LawfulEuc` holds for the models of Z, Z[i] (4 units, quadrant table) and Z[ω] (6 units, sextant table);
+* units: `is_unit a ↔ inv a ≠ none`, `inv a = some u → a·u = 1` for Z, Z[i], Z[ω], F_p (p = 2,3,5,7);
+* F_p (p = 2,3,5,7): all of the above by exhaustive evaluation of the model.
+Not proved here (checked by the differential run only): Q, F[x], homogeneous polynomials (see props/C15.json).
 -/
 namespace Yuiv.C15
 open Yuiv
@@ -28,5 +39,164 @@ theorem int_divRound_tie_away (a b : Int) (hb : b ≠ 0)
   exact this h
 
 example : zDivRoundT 5 2 = 3 ∧ zDivRoundT (-5) 2 = -3 ∧ zDivRoundT 27021597764222979 3 = 9007199254740993 := by decide
+
+/-- the Rust-level operators panic exactly on a zero divisor -/
+theorem int_ops_panic_iff (a b : Int) :
+    (zDiv a b = .panic ↔ b = 0) ∧ (zRem a b = .panic ↔ b = 0) ∧ (zDivRound a b = .panic ↔ b = 0) := by
+  unfold zDiv zRem zDivRound
+  refine ⟨?_, ?_, ?_⟩ <;> (split <;> simp_all)
+
+/-- Z: `is_unit a ↔ inv a ≠ none`, `inv a = some u → a·u = 1`, and `is_unit` is invertibility in ℤ -/
+theorem int_units (a : Int) :
+    (zIsUnit a = true ↔ zInv a ≠ none) ∧ (∀ u, zInv a = some u → a * u = 1) ∧ (zIsUnit a = true ↔ IsUnit a) :=
+  int_units' a
+
+/-- the model of the integer operations satisfies the assumptions of the generic theorems
+(so `normalized` is idempotent / constant on associates, the normalising unit `±1` is a unit, …) -/
+theorem int_lawful : LawfulEuc (α := Int) intOps := int_lawful'
+
+/-! ### Gaussian integers -/
+
+/-- `a = (a/b)·b + a%b` in Z[i] -/
+theorem gauss_div_rem (x y : QInt) : x = QInt.add (QInt.gMul (QInt.gDiv x y) y) (QInt.gRem x y) := QInt.g_div_rem x y
+
+/-- `2·N(a % b) ≤ N(b)` -/
+theorem gauss_rem_bound (x y : QInt) (hy : y ≠ QInt.zero) : 2 * QInt.gNorm (QInt.gRem x y) ≤ QInt.gNorm y :=
+  QInt.g_rem_bound x y hy
+
+/-- the remainder has strictly smaller norm -/
+theorem gauss_rem_lt (x y : QInt) (hy : y ≠ QInt.zero) : QInt.gNorm (QInt.gRem x y) < QInt.gNorm y := by
+  have := QInt.g_rem_bound x y hy
+  have := QInt.gNorm_pos y hy
+  have := GInt.norm_nonneg (QInt.gRem x y)
+  omega
+
+/-- `is_unit a ↔ inv a ≠ none`, `inv a = some u → a·u = 1` -/
+theorem gauss_units (x : QInt) :
+    (QInt.gIsUnit x = true ↔ QInt.gInv x ≠ none) ∧ (∀ u, QInt.gInv x = some u → QInt.gMul x u = QInt.one) :=
+  QInt.g_units x
+
+/-- `is_unit` is invertibility in the ring Z[i]; there are exactly four units -/
+theorem gauss_isUnit_iff (x : GInt) : QInt.gIsUnit x = true ↔ IsUnit x := by
+  constructor
+  · intro h
+    refine GInt.isUnit_of_norm_one x ?_
+    have := (int_units' (QInt.gNorm x)).2.2.1 h
+    rcases Int.isUnit_iff.1 this with h1 | h1
+    · exact h1
+    · have := GInt.norm_nonneg x; omega
+  · intro h
+    have := GInt.norm_one_of_isUnit x h
+    unfold QInt.gIsUnit; rw [this]; rfl
+
+/-- Z[i] with `gaussOps` is a lawful Euclidean structure: ring operations, Euclidean division, the quadrant
+table gives a unit, and `normalizing_unit (a·u)·u = normalizing_unit a` for each of the four units -/
+theorem gauss_lawful : LawfulEuc (α := GInt) gaussOps := GInt.lawful
+
+/-! ### Eisenstein integers -/
+
+theorem eisen_div_rem (x y : QInt) : x = QInt.add (QInt.eMul (QInt.eDiv x y) y) (QInt.eRem x y) := QInt.e_div_rem x y
+
+/-- `4·N(a % b) ≤ 3·N(b)` -/
+theorem eisen_rem_bound (x y : QInt) (hy : y ≠ QInt.zero) : 4 * QInt.eNorm (QInt.eRem x y) ≤ 3 * QInt.eNorm y :=
+  QInt.e_rem_bound x y hy
+
+theorem eisen_rem_lt (x y : QInt) (hy : y ≠ QInt.zero) : QInt.eNorm (QInt.eRem x y) < QInt.eNorm y := by
+  have := QInt.e_rem_bound x y hy
+  have := QInt.eNorm_pos y hy
+  have := EInt.norm_nonneg (QInt.eRem x y)
+  omega
+
+theorem eisen_units (x : QInt) :
+    (QInt.eIsUnit x = true ↔ QInt.eInv x ≠ none) ∧ (∀ u, QInt.eInv x = some u → QInt.eMul x u = QInt.one) :=
+  QInt.e_units x
+
+theorem eisen_isUnit_iff (x : EInt) : QInt.eIsUnit x = true ↔ IsUnit x := by
+  constructor
+  · intro h
+    refine EInt.isUnit_of_norm_one x ?_
+    have := (int_units' (QInt.eNorm x)).2.2.1 h
+    rcases Int.isUnit_iff.1 this with h1 | h1
+    · exact h1
+    · have := EInt.norm_nonneg x; omega
+  · intro h
+    have := EInt.norm_one_of_isUnit x h
+    unfold QInt.eIsUnit; rw [this]; rfl
+
+/-- Z[ω] with `eisenOps` is a lawful Euclidean structure (six units, sextant table) -/
+theorem eisen_lawful : LawfulEuc (α := EInt) eisenOps := EInt.lawful
+
+/-! ### the generic code of `euc_ring.rs` / `ring.rs` over any lawful structure -/
+
+section generic
+variable {α : Type} [CommRing α] {E : EucOps α} (L : LawfulEuc E)
+include L
+
+/-- `gcd` terminates (the fuel `norm y + 1` is never exhausted) and never panics; its result divides both
+arguments, is divisible by every common divisor, and is normalised — on all paths incl. the early returns -/
+theorem gcd_total (x y : α) :
+    ∃ d, E.gcd x y = .ok d ∧ d ∣ x ∧ d ∣ y ∧ (∀ c, c ∣ x → c ∣ y → c ∣ d) ∧ E.normalized d = d := by
+  obtain ⟨d, h, hc, hn⟩ := L.gcd_spec x y
+  exact ⟨d, h, ((hc d).1 dvd_rfl).1, ((hc d).1 dvd_rfl).2, fun c h1 h2 => (hc c).2 ⟨h1, h2⟩, hn⟩
+
+/-- `gcdx` returns `(d, s, t)` with `s·x + t·y = d` and `d` is what `gcd` returns -/
+theorem gcdx_bezout (x y : α) :
+    ∃ d s t, E.gcdx x y = .ok (d, s, t) ∧ s * x + t * y = d ∧ E.gcd x y = .ok d := L.gcdx_spec x y
+
+/-- the gcd does not depend on the order of the arguments -/
+theorem gcd_symm [IsDomain α] (x y d d' : α) (h : E.gcd x y = .ok d) (h' : E.gcd y x = .ok d') : d = d' :=
+  L.gcd_comm x y d d' h h'
+
+/-- `lcm·gcd` is an associate of `x·y` and the lcm is normalised (`x`, `y` not both zero) -/
+theorem lcm_gcd_assoc (x y : α) (hxy : ¬(x = 0 ∧ y = 0)) :
+    ∃ l g, E.lcm x y = .ok l ∧ E.gcd x y = .ok g ∧ Associated (l * g) (x * y) ∧ E.normalized l = l :=
+  L.lcm_spec x y hxy
+
+/-- `lcm(0,0)` panics (division by the gcd `0`) -/
+theorem lcm_zero_zero_panics : E.lcm 0 0 = .panic := L.lcm_zero_zero
+
+/-- multiplying by the normalising unit is idempotent -/
+theorem normalized_idempotent (x : α) : E.normalized (E.normalized x) = E.normalized x := L.normalized_idem x
+
+/-- … and constant on associates -/
+theorem normalized_const_on_associates (x u : α) (hu : IsUnit u) : E.normalized (x * u) = E.normalized x :=
+  L.normalized_assoc x u hu
+
+/-- `normalized x` is `x` times a unit -/
+theorem normalized_is_associate (x : α) : E.normalized x = x * E.normUnit x ∧ IsUnit (E.normUnit x) :=
+  ⟨L.normalized_eq x, L.normUnit_isUnit x⟩
+
+/-- `divides` is sound -/
+theorem divides_sound (x y : α) (h : E.divides x y = true) : x ≠ 0 ∧ x ∣ y := L.divides_imp x y h
+
+end generic
+
+/-- the hypotheses of the generic theorems are satisfiable: e.g. in Z[i], `gcd(-2, 4)` — the witness of the
+un-normalised early return (F4) — is `2` -/
+example : gaussOps.gcd ⟨-2, 0⟩ ⟨4, 0⟩ = .ok ⟨2, 0⟩ ∧ gaussOps.gcdx ⟨11, 3⟩ ⟨1, 8⟩ = .ok (⟨2, 1⟩, ⟨1, 2⟩, ⟨-3, 0⟩) := by
+  decide +kernel
+
+/-! ### F_p, p = 2, 3, 5, 7 (exhaustive) -/
+
+/-- F_p, p ∈ {2,3,5,7}: exhaustive -/
+theorem ff_units_and_normalisation : ∀ p ∈ [2, 3, 5, 7], ∀ a < p,
+    (((ffOps p).isUnit a = true ↔ (ffOps p).inv a ≠ none) ∧
+     (∀ u, (ffOps p).inv a = some u → (ffOps p).mul a u = (ffOps p).one ∧ u < p) ∧
+     (ffOps p).isUnit ((ffOps p).normUnit a) = true ∧
+     (∀ u < p, u ≠ 0 → a ≠ 0 → (ffOps p).normalized ((ffOps p).mul a u) = (ffOps p).normalized a) ∧
+     (ffOps p).normalized ((ffOps p).normalized a) = (ffOps p).normalized a) := by
+  decide +kernel
+
+/-- F_p, p ∈ {2,3,5,7}: gcd / gcdx / lcm / division on all pairs -/
+theorem ff_euclid : ∀ p ∈ [2, 3, 5, 7], ∀ a < p, ∀ b < p,
+    ((ffOps p).gcd a b = .ok (if a = 0 ∧ b = 0 then 0 else 1 % p)) ∧
+    ((match (ffOps p).gcdx a b with
+      | .ok (d, s, t) => decide ((s * a + t * b) % p = d ∧ (ffOps p).gcd a b = .ok d)
+      | _ => false) = true) ∧
+    (¬(a = 0 ∧ b = 0) → (match (ffOps p).lcm a b with
+      | .ok l => decide (l = 0 ↔ a * b % p = 0)
+      | _ => false) = true) ∧
+    (b ≠ 0 → (ffOps p).add ((ffOps p).mul ((ffOps p).div a b) b) ((ffOps p).rem a b) = a) := by
+  decide +kernel
 
 end Yuiv.C15
